@@ -17,6 +17,8 @@ def convert_state(lbl, st):
     b = st['bucket']
     return {'act': act, 'main': fn(st['main']), 'store': fn(st['store']), 'lastTxn': st['lastTxn'],
             'clock': st['clock'], 'pc': st['pc'], 'lastSynced': st['lastSynced'], 'waitingOwn': st['waitingOwn'],
+            'waitingOther': st.get('waitingOther', False), 'tListing': st.get('tListing', False),
+            'tStore': st.get('tStore', False), 'tPass': st.get('tPass', False),
             'uncaptured': st['uncaptured'], 'nbucket': len(b), 'committedN': st['committedN'],
             'newestImg': img_of(b[-1]['img']) if b else {}}
 
@@ -32,10 +34,10 @@ def from_error_trace(r):
     return [convert_state(l, s) for l, s in tlaval.parse_error_trace(r.out)]
 
 
-def replay(c, behs, native, nkeys=1, retry=2, timeout=3000):
+def replay(c, behs, native, nkeys=1, retry=2, timeout=3000, only_once=False):
     d = vlib.scratch('loop-')
     p = os.path.join(d, 'in.json')
-    json.dump({'native': native, 'nkeys': nkeys, 'retryCount': retry, 'behaviours': behs}, open(p, 'w'))
+    json.dump({'native': native, 'nkeys': nkeys, 'retryCount': retry, 'onlyOnce': only_once, 'behaviours': behs}, open(p, 'w'))
     return vlib.run_harness(['loop', p], timeout=timeout)
 
 
@@ -100,3 +102,20 @@ def run_suite(c, prop, extra_props=(), with_window=True, window_inv=None):
         if behs:
             res = replay(c, behs, native)
             absorb(c, res, prop, extra_props)
+
+
+def run_extra(c, prop, kind, extra_props=()):
+    """Start-up with another instance's snapshot in the bucket and the start tracker ('ready'), or only_once ('once'):
+    exhaustive TLC (smaller constants in the quick tier), simulated behaviours replayed through the real loop."""
+    thorough = c.tier == 'thorough'
+    for tag, native in (('native', True), ('shadow', False)):
+        cfg = 'LSLoop_%s_%s%s.cfg' % (tag, kind, '' if thorough else '_q')
+        r = vlib.tlc_must_pass('LSLoop', cfg, workers=16 if thorough else 8, timeout=3000)
+        c.add_tlc(cfg, r)
+        behs = simulate(c, 'LSLoop_%s_%s.cfg' % (tag, kind), 3000 if thorough else 400, 45)
+        if kind == 'once':
+            behs = [b for b in behs if any(s['act'].get('to') == 'exit' for s in b) or b[0]['act'].get('other')]
+        else:
+            behs = [b for b in behs if b[0]['act'].get('other')]
+        res = replay(c, behs, native, only_once=(kind == 'once'))
+        absorb(c, res, prop, extra_props)
